@@ -160,7 +160,7 @@ def build(repo):
                         ('NaN-aware minimum:: not isnone(self.objsave) and '
                          'implies(not isnan(NEWF), not isnan(val(self.objsave)) and val(self.objsave) <= NEWF) and '
                          'implies(not isnone(old(self.objsave)) and not isnan(val(old(self.objsave))), not isnan(val(self.objsave)) and val(self.objsave) <= val(old(self.objsave)))'
-                         .replace('NEWF', 'Fobj(self, rvec, ite(x_in_abs_coords, x, self.as_absolute_coordinates(x)))'), 'C04', 'C08', 'C17'),
+                         .replace('NEWF', 'Fobj(self, rvec, ite(x_in_abs_coords, x, self.as_absolute_coordinates(x)))'), 'C04', 'C08', 'C17', 'C10'),
                         ] + INV_ENS)
     # ------------------------------------------------------------------ get_final_results
     D.contract('Model.get_final_results', tags=['C17', 'C03', 'C04', 'C08', 'C11'],
@@ -177,7 +177,7 @@ def build(repo):
                         ('Jacobian belongs to the returned entry:: (result[5] == self.eval_num[self.kopt] and same(val(result[2]), self.objval[self.kopt]) and result[3] == self.model_jac) or '
                          '(slot_some(self) and result[5] == val(self.eval_num_save) and same_opt(result[3], self.jacsave))', 'C11'),
                         ('NaN-aware minimum:: implies(not isnan(self.objval[self.kopt]), not isnan(val(result[2])) and val(result[2]) <= self.objval[self.kopt]) and '
-                         'implies(not isnone(self.objsave) and not isnan(val(self.objsave)), not isnan(val(result[2])) and val(result[2]) <= val(self.objsave))', 'C04', 'C08', 'C17')])
+                         'implies(not isnone(self.objsave) and not isnan(val(self.objsave)), not isnan(val(result[2])) and val(result[2]) <= val(self.objsave))', 'C04', 'C08', 'C17', 'C10')])
     # ------------------------------------------------------------------ __init__
     D.contract('Model.__init__', tags=['C17', 'C03'],
                params={'npt': 'int', 'x0': 'V', 'r0': 'V', 'xl': 'V', 'xu': 'V', 'projections': 'projlist', 'r0_nsamples': 'int', 'h': 'opt:cb:h',
